@@ -231,6 +231,10 @@ def stepA (op : String) (args : List String) (outs : List Nat) : AM Res :=
     match parseHandle? s, parseHandle? o with
     | some s, some o => do return .int (← fApply op s (some o) h)
     | _, _ => bad
+  | "f_copy", [s], [h] =>
+    match parseHandle? s with
+    | some s => do return .int (← fCopy s h)
+    | none => bad
   | "f_eq", [s, o], [] =>
     match parseHandle? s, parseHandle? o with
     | some s, some o => do return .bool (← fEq s o)
